@@ -499,6 +499,22 @@ func checkC02(res *Result) {
 			}
 		}
 	}
+	// R11: the addressing properties admit every IRI
+	res.Rule("C02-R11", "to, bto, cc, bcc and audience take a string as an IRI exactly when it parses and has a scheme (as the anyURI codec does): an addressee written as as:Public, a urn: or any other host-less IRI is an IRI in all five (shared with C12-R2)")
+	{
+		M := loadGenModel()
+		nAddr := 0
+		for _, pm := range M.Props {
+			switch pm.Name {
+			case "to", "bto", "cc", "bcc", "audience":
+				if len(pm.Problems) == 0 {
+					nAddr++
+					checkIRIAdmission(res, M.S, pm, "C02-R11", pm.G.Dir)
+				}
+			}
+		}
+		res.Count("C02-R11 addressing properties", nAddr, 5)
+	}
 	// R9: every recipient is tried
 	res.Rule("C02-R9", "every recipient is tried: each way round the loop of resolveActors passes through the dereference (no element is skipped on a condition other than the depth limit checked before the loop), and each way round the stored-inbox loop of prepare passes through InboxForActor")
 	if f := p.MustFunc(res, "C02-R9", "sideEffectActor.resolveActors"); f != nil {
